@@ -148,6 +148,7 @@ fn history(out: &mut Out, rng: &mut Rng, consensus: &Consensus, idx: u64, honest
     let tau = 2u64;
     // what each peer announced (chain, height), for the convergence oracle
     let mut announced: Vec<Option<(usize, u64)>> = vec![None; n_peers];
+    let mut proof_req_at: Vec<Option<u64>> = vec![None; n_peers];
     let mut prev_td = c.storage.get_last_state().0;
     let mut prev_tip = c.storage.get_last_state().1.calc_header_hash();
 
@@ -155,7 +156,7 @@ fn history(out: &mut Out, rng: &mut Rng, consensus: &Consensus, idx: u64, honest
     for step in 0..total_steps {
         if stopped { break; }
         let closing = step >= steps;
-        now += if closing { 500 } else if honest_only { rng.range(50, 1_200) } else { match rng.below(10) { 0 => 20_000, 1 if !honest_only => 61_000, 2 => 8_100, _ => rng.range(50, 4_000) } };
+        now += if closing { 500 } else if honest_only { rng.range(50, 1_200) } else { match rng.below(10) { 0 => 20_000, 1 if !honest_only => 61_000, 2 => 8_100, 3 => 31_000, 4 => 45_000, _ => rng.range(50, 4_000) } };
         guard.set_faketime(now);
         let mut k = rng.below(n_peers as u64) as usize;
         if closing {
@@ -266,6 +267,13 @@ fn history(out: &mut Out, rng: &mut Rng, consensus: &Consensus, idx: u64, honest
                     None => None,
                 };
                 let resp = match resp {
+                    // the server's tip moved while the request was under way: it answers with its new last state and no proof
+                    // (the client then asks again: a second request whose timer starts now)
+                    Some(_) if !closing && !honest_only && sims[j].height < ch.tip() && rng.chance(1, 5) => {
+                        what = "proof-new-last-state";
+                        sims[j].height = (sims[j].height + rng.range(1, 3)).min(ch.tip());
+                        Resp { last: ch.packed_vheader(sims[j].height), headers: Vec::new(), proof: Vec::new() }
+                    }
                     Some(r) if sims[j].honest || closing || rng.chance(1, 2) => r,
                     Some(r) => { let (m, w) = mutate_response(rng, &r, &ch, &chains[1 - sims[j].chain]); what = w; m }
                     None => {
@@ -317,6 +325,22 @@ fn history(out: &mut Out, rng: &mut Rng, consensus: &Consensus, idx: u64, honest
                 let st = c.state(sim.id);
                 if sim.id == pid { continue; }
                 let _ = st;
+            }
+        }
+        // C11: the message timeout runs from the request that is outstanding: a peer that was sent a proof request less than
+        // MESSAGE_TIMEOUT ago and whose last state is younger than that is not timed out by a tick
+        for (j, sim) in sims.iter().enumerate() {
+            if o.sent_to.iter().any(|(p, m)| *p == sim.id && matches!(m.to_enum(), packed::LightClientMessageUnion::GetLastStateProof(_))) { proof_req_at[j] = Some(now); }
+        }
+        if name == "tick" {
+            for (j, sim) in sims.iter().enumerate() {
+                if !o.disconnects.contains(&sim.id) { continue; }
+                let fresh_req = proof_req_at[j].map(|t| now - t <= 60_000).unwrap_or(false);
+                let fresh_ls = before_all[j].as_ref().and_then(|s| s.get_last_state().map(|l| now - l.update_ts() <= 60_000)).unwrap_or(false);
+                if fresh_req && fresh_ls {
+                    problems.push(format!("[C11-premature-timeout] step {}: peer {} was disconnected by the tick although its proof request was sent {} ms ago and its last state is younger than the message timeout",
+                        step, sim.id.value(), now - proof_req_at[j].unwrap()));
+                }
             }
         }
         // C11: disconnected peers leave no state
